@@ -114,6 +114,19 @@ func (w *World) checkStep(prev, cur *snapshot, res StepResult, calls []simvk.Cal
 		return fs.fails
 	}
 
+	// ---- C08: an aliasing resource the library created and bound lies inside the allocation ----
+	if a := w.cur.aliasAt; a >= 0 && res.Kind == "ok" {
+		off := w.cur.aliasOff
+		if off < -1000000 {
+			off = 0
+		}
+		// (for an image the library cannot know the size before the device reports it: only the buffer variant
+		// promises that the range fits; a negative offset is refused for both)
+		if off < 0 || op.Name == "xbuf" && off+w.cur.aliasSize > w.slots[a].Size() {
+			fs.add("C08", "alias-outside-allocation", "op %q bound an aliasing resource at local range [%d,+%d) of an allocation of %d bytes", op.String(), off, w.cur.aliasSize, w.slots[a].Size())
+		}
+	}
+
 	// ---- C13: a refused op changes nothing ----
 	// (an operation that failed because an injected driver fault fired is not a refused request: what it may
 	// leave behind - e.g. the new block kept as an empty spare block - is C10's subject, checked below)
